@@ -64,3 +64,22 @@ package stage
 //@   on return assert mismatch-fails: called(fileutil.FileMD5) && (lastret(fileutil.FileMD5, 1) != nil || lastret(fileutil.FileMD5, 0) != old(file.hash)) ==> !called(os.Rename) && called((*Stage).toCache) && lastarg((*Stage).toCache, 2) == stateFailed && !went((*Stage).finalizeQueue)
 //@   on return assert rename-failure-fails: called(os.Rename) && lastret(os.Rename, 0) != nil ==> lastarg((*Stage).toCache, 2) == stateFailed && !went((*Stage).finalizeQueue)
 //@   on return assert validated-is-queued: called((*Stage).toCache) && lastarg((*Stage).toCache, 2) == stateValidated ==> went((*Stage).finalizeQueue)
+
+//@ func (*Stage).finalize
+//@   before call (*Stage).putFileAway assert only-validated: has(s.cache, file.path) && s.cache[file.path].state == stateValidated && arg1 == file
+//@   before call (*Stage).putFileAway assert under-path-lock: exclusive(fileLock)
+//@   before go (*Stage).finalizeQueue assert releases-after-delivery: called((*Stage).putFileAway) && lastret((*Stage).putFileAway, 1) == nil
+//@   before call (*Stage).fromWait assert releases-own-waiters: arg1 == file.path && called((*Stage).putFileAway) && lastret((*Stage).putFileAway, 1) == nil
+//@   on return assert releases-waiters: called((*Stage).putFileAway) && lastret((*Stage).putFileAway, 1) == nil ==> called((*Stage).fromWait) && rangeindex == len(waiting)
+//@   on return assert failure-releases-nothing: called((*Stage).putFileAway) && lastret((*Stage).putFileAway, 1) != nil ==> !called((*Stage).fromWait) && !went((*Stage).finalizeQueue)
+//@   loop 0 invariant -1 <= rangeindex && rangeindex < len(waiting)
+//@   loop 0 backedge assert each-waiter-queued: went((*Stage).finalizeQueue) && lastgoarg((*Stage).finalizeQueue, 1) == waiting[rangeindex]
+
+//@ func (*Stage).putFileAway
+//@   before call fileutil.Move assert log-before-move: called(sts.ReceiveLogger.Received) && as(lastarg(sts.ReceiveLogger.Received, 1), *finalFile) == file
+//@   before call fileutil.Move assert moves-wait-body: arg0 == file.path+waitExt && arg1 == pathjoin(s.targetDir, ite(file.renamed != "", file.renamed, file.name))
+//@   before call (*Stage).toCache assert finalized-after-move: arg1 == file && arg2 == stateFinalized && called(fileutil.Move) && lastret(fileutil.Move, 0) == nil
+//@   before call os.Remove assert companion-removed-last: arg0 == file.path+compExt && called((*Stage).toCache)
+//@   on return assert one-record-per-call: called(fileutil.Move) ==> ncalls(sts.ReceiveLogger.Received) == 1
+//@   on return assert error-means-not-finalized: err != nil ==> !called((*Stage).toCache)
+//@   on return assert ok-means-finalized: err == nil ==> called((*Stage).toCache) && called(fileutil.Move) && targetPath == lastarg(fileutil.Move, 1)
